@@ -17,6 +17,7 @@ def showRecOpt : Option Rec → String
 def handleQuery (s : DState) (toks : List String) : Option Out :=
   match toks with
   | ["oracle", _, slot] => withSlot s slot fun _ => ["oracle ok"]
+  | ["bigobo", _, _, _] => some (s, ["oracle ok"])  -- implementation-vs-oracle only (70 000 [Term] stanzas)
   | ["bigfan", _, _] => some (s, ["oracle ok"])     -- implementation-vs-oracle only (a term with > 65 535 parents)
   | ["bigarena", _, _] => some (s, ["oracle ok"])   -- implementation-vs-oracle only (70 000 terms)
   | ["clone", a, b] =>   -- `Ontology::clone()`
